@@ -16,6 +16,7 @@ NAMES = ['a', 'b', 'a.txt', 'A', 'foo', 'foo bar', 'é', 'x%y', 'n+1', '-d',
 def config(tier):
     return {
         'level': 'exploration',
+        'cold_sample': 2 if tier == 'quick' else 10,
         'real_sample': 3 if tier == 'quick' else 20,
         'cases': 450 if tier == 'quick' else 6000,
         'budget_s': 55 if tier == 'quick' else 570,
@@ -164,6 +165,29 @@ def disk_entries(w):
 
 
 def run_case(case):
+    res = run_history(case)
+    if res.get('violations') and not case.get('no_shrink'):
+        # greedy shrinking: drop steps one at a time while the same mechanism
+        # keeps failing; the shortest failing history found is the witness
+        mech = res['violations'][0]['mechanism'].split('/')[0]
+        steps = list(case['steps'])
+        i = len(steps) - 1
+        tries = 0
+        while i >= 0 and tries < 60:
+            cand = steps[:i] + steps[i + 1:]
+            c2 = dict(case, steps=cand, no_shrink=True)
+            r2 = run_history(c2)
+            tries += 1
+            if r2.get('violations') and \
+                    r2['violations'][0]['mechanism'].split('/')[0] == mech:
+                steps = cand
+            i -= 1
+        res['violations'][0]['detail']['shrunk_history'] = steps
+        res['violations'][0]['detail']['shrunk_from'] = len(case['steps'])
+    return res
+
+
+def run_history(case):
     out = {'violations': [], 'obs': {}, 'features': []}
     obs = out['obs']
     model = Model()
